@@ -21,7 +21,8 @@ LEVEL = "model_checking"
 RULE = (
     "all U-PROB slot-grammar problems with <= d deviating slots (d per tier, see bounds); per "
     "problem BFS over reference-reachable states to depth D, every ground action in every state, "
-    "on chain and flat UPStates; non-trivial transition = successor differs from the pre-state or "
+    "on chain and flat UPStates, with UPState.MAX_ANCESTORS at its default and at 1 (flattening inside the "
+    "explored depth; see check_case); non-trivial transition = successor differs from the pre-state or "
     "the action is inapplicable for a reason other than a false precondition"
 )
 ASSUMPTIONS = [
@@ -56,14 +57,36 @@ def run_shard(shard, tier, seed):
 def replay(case):
     acc = Acc()
     cid = tuple(tuple(x) for x in case["cid"])
-    check_case(cid, case.get("depth", 3), acc)
+    check_case(cid, case.get("depth", 3), acc, only_limit=case.get("max_ancestors", "all"))
     return [(fp, e["cases"][0]["what"]) for fp, e in acc.viol.items()]
 
 
 finalize = su.prune_supersets
 
 
-def check_case(cid, depth, acc):
+def check_case(cid, depth, acc, only_limit="all"):
+    """UPState.MAX_ANCESTORS (a documented, user-settable class attribute, default 20) decides after
+    how many chained updates a state is flattened: besides the default, the exploration is repeated
+    with the limit 1 so that flattening happens inside the explored depth (levels 0 and 1: both
+    settings; level 2 and above: alternating by the parity of the chosen alternatives)."""
+    from unified_planning.model.state import UPState
+
+    default = UPState.MAX_ANCESTORS
+    if only_limit != "all":
+        limits = [only_limit]
+    elif len(cid) <= 1:
+        limits = [default, 1]
+    else:
+        limits = [1 if sum(i for _s, i in cid) % 2 else default]
+    for lim in limits:
+        UPState.MAX_ANCESTORS = lim
+        try:
+            _check_case(cid, depth, acc, lim)
+        finally:
+            UPState.MAX_ANCESTORS = default
+
+
+def _check_case(cid, depth, acc, max_ancestors):
     ps = uprob.make(dict(cid))
     lab = uprob_label(cid)
     b = su.build(ps, acc)
@@ -84,7 +107,7 @@ def check_case(cid, depth, acc):
     acc.count("problems")
 
     def viol(sub, what, extra=None):
-        case = {"cid": tj(cid), "depth": depth}
+        case = {"cid": tj(cid), "depth": depth, "max_ancestors": max_ancestors}
         if extra:
             case.update(extra)
         acc.violation("%s|%s" % (sub, lab), what, case)
